@@ -1566,6 +1566,10 @@ M('C02', 'original defect: from_ndarray compares block charges with the raw qtot
   "            res.qtotal = detect_qtotal(data_flat, legcharges, cutoff)\n        qtotal = res.qtotal  # valid charges: block charges are compared with it below\n", "            res.qtotal = qtotal = detect_qtotal(data_flat, legcharges, cutoff)\n",
   'CHARGE-valid-compare')
 
+M('C16', 'original defect: FlatLinearOperator masks the sector with the raw charges of the leg', 'tenpy/linalg/sparse.py',
+  "                charges = self.leg.chinfo.make_valid(self.leg.qconj * value)\n                self._mask = np.all(self.leg.to_qflat() == charges[np.newaxis, :], axis=1)", "                self._mask = np.all(self.leg.to_qflat() == value[np.newaxis, :], axis=1)",
+  'WRAP-sector-direction')
+
 # ---------------------------------------------------------------- C16 / C19
 M('C16', 'GMRES restart: relative residual norm used for normalisation (round-3 seed b)', KRY,
   """        self.total_error.append([npc.norm(self.rs[-1]) / self.b_norm])
